@@ -21,11 +21,13 @@
               if votes[label] > best_score:  labels[i] = label;  best_score = votes[label]
               votes[label] = 0
 
-    Two facts of the source are parameters of the model ([kvariant]); their current values are re-read
-    from vote.pyx by the translator harness/translators/vote.py (Gen/VoteConsts.v) on every run:
+    The listing above is the kernel BEFORE the repair 32660cf6 ([legacy_kernel]). Three facts of the source are
+    parameters of the model ([kvariant]); their current values are re-read from vote.pyx by the translator
+    harness/translators/vote.py (Gen/VoteConsts.v) on every run:
       [wpos] = the subscript of [data] in [votes_neigh.push_back(data[..])] is the edge position [j]
-               (current source: [jj], the neighbour's node index => [wpos = false]);
-      [clr]  = [votes_neigh.clear()] is executed for every node (current source: absent => [false]). *)
+               (legacy: [jj], the neighbour's node index => [wpos = false]; repaired source: [true]);
+      [clr]  = [votes_neigh.clear()] is executed for every node (legacy: absent => [false]; repaired: [true]);
+      [vlab] = [votes] has max(n, max(labels) + 1) entries (legacy: n entries => [false]; repaired: [true]). *)
 From SKN Require Import Base.Util.
 
 Inductive site :=
@@ -35,7 +37,12 @@ Inductive vres (A : Type) := VOk (a : A) | VOOB (s : site).
 Arguments VOk {A} a.
 Arguments VOOB {A} s.
 
-Record kvariant := { wpos : bool; clr : bool }.
+Record kvariant := { wpos : bool; clr : bool; vlab : bool }.
+
+(** the kernel as it was before the repair 32660cf6 (kept so that a regression is recognised by name) *)
+Definition legacy_kernel : kvariant := {| wpos := false; clr := false; vlab := false |}.
+(** the kernel of the repaired source *)
+Definition repaired_kernel : kvariant := {| wpos := true; clr := true; vlab := true |}.
 
 (** [l[i] = x] (no effect when out of range; callers check the range first). *)
 Fixpoint upd {A} (l : list A) (i : nat) (x : A) : list A :=
@@ -141,10 +148,14 @@ Fixpoint vote_loop (kv : kvariant) (indptr indices : list nat) (data : list Q) (
       end
   end.
 
+(** number of entries of [votes] *)
+Definition votes_size (kv : kvariant) (labels : list Z) : nat :=
+  if vlab kv then Nat.max (length labels) (Z.to_nat (fold_right Z.max (-1)%Z labels + 1)) else length labels.
+
 (** vote_update(indptr, indices, data, labels, index): the labels after one sweep. *)
 Definition vote_update (kv : kvariant) (indptr indices : list nat) (data : list Q) (labels : list Z)
            (index : list nat) : vres (list Z) :=
-  match vote_loop kv indptr indices data index (labels, repeat 0%Q (length labels), []) with
+  match vote_loop kv indptr indices data index (labels, repeat 0%Q (votes_size kv labels), []) with
   | VOOB s => VOOB s
   | VOk (labels', _, _) => VOk labels'
   end.
@@ -180,3 +191,6 @@ Definition local_max_b (nb : nbrs) (labels : list Z) (i : nat) : bool :=
   forallb (fun p : nat * Q =>
              let l := nthz labels (fst p) in
              (l <? 0)%Z || Qle_bool (total_vote nb labels l) (total_vote nb labels (nthz labels i))) nb.
+
+(** the legacy kernel, by name *)
+Definition vote_update_legacy := vote_update legacy_kernel.
